@@ -57,7 +57,17 @@ pub fn run(ctx: &mut Ctx, _replay: Option<&[String]>) {
     // column weight 0): the validator and the column-weight / row-weight / girth predicates judge every successful result
     let extra = ctx.scale(2500, 60000);
     for k in 0..extra {
-        let cfg = if k % 5 == 4 {
+        let cfg = if k % 500 == 7 {
+            // few rows, hundreds of columns: row weights pass 255 / 256 while there is room left in wr (a row weight must not be compared in 8 bits)
+            let nrows = rng.range(2, 5);
+            let ncols = rng.range(520, 700);
+            let wc = rng.range(1, 2).min(nrows);
+            mackay_neal::Config {
+                nrows, ncols, wr: (ncols * wc).div_ceil(nrows) + rng.range(60, 150), wc,
+                backtrack_cols: 0, backtrack_trials: 0, min_girth: None, girth_trials: 0,
+                fill_policy: if rng.chance(3, 4) { FillPolicy::Uniform } else { FillPolicy::Random },
+            }
+        } else if k % 5 == 4 {
             mackay_neal::Config {
                 nrows: *rng.pick(&[0usize, 0, 1, 1, 2]), ncols: *rng.pick(&[0usize, 1, 2, 3, 5]), wr: rng.range(1, 4), wc: *rng.pick(&[0usize, 1, 1, 2]),
                 backtrack_cols: rng.below(3), backtrack_trials: rng.below(4),
